@@ -145,3 +145,28 @@ Proof.
   - exact Hanch.
 Qed.
 Print Assumptions C12_case_value_for_the_integrals.
+
+(* The boundary term at infinity is no longer a hypothesis (Radial/RadialDecay.v: M_l is bounded for arguments >= 1, r^m exp(-q r^2) -> 0):
+   H(r) -> 0 as r -> +inf for every i, j, k whenever zeta + a + b > 0 and aA, bB > 0.  The table theorem for the integrals with one
+   hypothesis less: *)
+From LV Require Import Radial.RadialDecay.
+Theorem C12_boundary_term_vanishes_at_infinity : forall (zeta a b A B : R), (0 < a * A)%R -> (0 < b * B)%R -> (0 < zeta + a + b)%R ->
+  forall i j k, filterlim (H zeta a b A B i j k) (Rbar_locally p_infty) (locally 0%R).
+Proof. exact H_decay. Qed.
+Print Assumptions C12_boundary_term_vanishes_at_infinity.
+Theorem C12_case_value_for_the_integrals_2 : forall (zeta a b A B : R), (0 < a * A)%R -> (0 < b * B)%R -> (0 < zeta + a + b)%R ->
+  forall T : nat -> nat -> Z -> R,
+  (forall i j k, is_RInt_gen (F zeta a b A B i j k) (at_right 0%R) (Rbar_locally p_infty) (T i j k)) ->
+  (forall i j k, filterlim (H zeta a b A B i j k) (at_right 0%R) (locally 0%R)) ->
+  forall (vals : basis -> R),
+  (forall k, Tz T 0 0 k = vals (BV (k - 2))) ->
+  forall tab, table_wf tab = true -> table_ok tab = true ->
+  (forall i j k l, 0 <= j < 100 -> 0 <= k < 100 -> check_case tab (key_of i j k) = VUnchecked ->
+     lookup tab i j k = Some l -> elc (zeta + a + b) (a * A) (b * B) vals l = Tz T i j k) ->
+  forall i j k c, 0 <= i -> 0 <= j < 100 -> 0 <= k < 100 ->
+    find (fun c => fst c =? key_of i j k) tab = Some c -> ecase (zeta + a + b) (a * A) (b * B) vals (snd c) = Tz T i j k.
+Proof.
+  intros zeta a b A B Hx Hy Hp T HT HB0. apply (C12_case_value_for_the_integrals zeta a b A B Hx Hy (Rgt_not_eq _ _ Hp) T HT HB0).
+  intros i j k. apply H_decay; assumption.
+Qed.
+Print Assumptions C12_case_value_for_the_integrals_2.
